@@ -84,9 +84,14 @@ Fixpoint complete_go (arg : str) (pos_only is_named : bool) (prefix : cprefix) (
       complete_go arg pos_only is_named prefix t ov items1 shell1
   end.
 
-Definition passes (md : nat) (pos_only : bool) (c : comp) : bool :=
-  Nat.eqb (comp_depth c) md && (negb pos_only || is_pos c).
+Definition px_na (p : cprefix) : bool := match p with PxNA => true | _ => false end.
+
+(* the hints that take part: deepest level; positional ones after `--`; and, while the value of
+   `--name=val` / `-n=val` is being typed, only hints that complete an argument's value (fix: commit b840250;
+   before it every remaining hint was matched against the value part and written back with the prefix) *)
+Definition passes (md : nat) (pos_only : bool) (prefix : cprefix) (c : comp) : bool :=
+  Nat.eqb (comp_depth c) md && (negb pos_only || is_pos c) && (px_na prefix || only_value c).
 
 Definition complete (cs : list comp) (arg : str) (pos_only is_named : bool) (prefix : cprefix)
   : list showcomp * list shellop :=
-  complete_go arg pos_only is_named prefix (filter (passes (max_depth cs) pos_only) cs) false [] [].
+  complete_go arg pos_only is_named prefix (filter (passes (max_depth cs) pos_only prefix) cs) false [] [].
